@@ -15,7 +15,8 @@ HasModel(o) == "model" \in DOMAIN o
 AsSet(s) == {s[i] : i \in 1..Len(s)}
 RealTree(o) == {[gid |-> o.tree[x].gid, pgid |-> IF o.tree[x].parent = 0 THEN 0 ELSE o.tree[o.tree[x].parent].gid] : x \in 1..Len(o.tree)}
 ModelDiff(o) == IF ~HasModel(o) THEN {}
-                ELSE IF ~o.ok THEN {"info-resolver-error-differs-from-algorithm-model"}
+                ELSE IF o.model.fatal # (~o.ok) THEN {"info-resolver-error-differs-from-algorithm-model"}
+                ELSE IF ~o.ok THEN {}
                 ELSE IF o.graph.nodes # o.model.nodes \/ AsSet(o.graph.edges) # AsSet(o.model.edges) THEN {"info-graph-differs-from-algorithm-model"}
                 ELSE IF RealTree(o) # AsSet(o.model.tree) THEN {"info-install-tree-differs-from-algorithm-model"}
                 ELSE {}
